@@ -202,6 +202,50 @@ def dyadic_weights(layer, rs):
   return new
 
 
+def check_wrapper(c, ctx, xt):
+  """QBidirectional around the recurrent layer of the case: the quantizers the wrapper reports have to be the
+  objects its forward / backward layers apply (identity), forward half first, in weight order."""
+  import qkeras as qk
+  from qkeras.qrecurrent import QBidirectional
+  from vf.monitors import qcall
+  base = {"layer": "bidirectional", "inner": c["kind"]}
+  cls = {"rnn": qk.QSimpleRNN, "lstm": qk.QLSTM, "gru": qk.QGRU}[c["kind"]]
+  kw = dict(kernel_quantizer=c["wq"], recurrent_quantizer=c["rq"], bias_quantizer=c["bq"], state_quantizer=c["sq"],
+            use_bias=c["use_bias"])
+  ok, ql = ctx.call(dict(base, op="construct"), lambda: QBidirectional(cls(c["units"], **kw)))
+  if not ok:
+    return
+  ok, _ = ctx.call(dict(base, op="first_call"), lambda: ql(xt))
+  if not ok:
+    return
+  with qcall.recording() as events:
+    ok, _ = ctx.call(dict(base, op="call"), lambda: np.asarray(ql(xt)))
+  if not ok:
+    return
+  ok, qs = ctx.call(dict(base, op="get_quantizers"), ql.get_quantizers)
+  if not ok:
+    return
+  qs = list(qs)
+  ctx.count("wrapper_layers_checked")
+  called = {e["qid"] for e in events}
+  if not called:
+    ctx.skip("wrapper_call_not_eager")
+    return
+  not_applied = [i for i, q in enumerate(qs) if q is not None and id(q) not in called]
+  ctx.evals(len(qs))
+  if not_applied:
+    ctx.violation(dict(base, kind="reported_quantizer_is_not_the_applied_object"),
+                  "get_quantizers()[%s] of the wrapper were never called while the layer ran (%d reported, %d distinct "
+                  "quantizer objects called)" % (not_applied, len(qs), len(called)), {"case": {k: str(v) for k, v in c.items()}})
+  halves = []
+  for part in (ql.forward_layer, ql.backward_layer):
+    cell = part.cell
+    halves += [getattr(cell, n + "_internal", None) for n in ("kernel_quantizer", "recurrent_quantizer", "bias_quantizer", "state_quantizer")]
+  if len(halves) == len(qs) and any(a is not b for a, b in zip(qs, halves)):
+    ctx.violation(dict(base, kind="reported_quantizers_not_in_weight_order_of_the_applied_ones"),
+                  "positions %r differ from forward + backward (kernel, recurrent, bias, state)" % [i for i, (a, b) in enumerate(zip(qs, halves)) if a is not b], None)
+
+
 def run_case(c, ctx):
   import tensorflow as tf
   import tensorflow.keras.backend as K
@@ -212,6 +256,8 @@ def run_case(c, ctx):
   rs = np.random.default_rng(c["seed"] * 7001 + c["idx"])
   x = (rs.integers(-32, 33, size=tuple(c["xin"])) / 16.0).astype(np.float32)
   xt = tf.constant(x)
+  if kind in ("rnn", "lstm", "gru") and c["idx"] % 2 == 0:
+    check_wrapper(c, ctx, xt)
   base = {"layer": kind}
   if kind in ("rnn", "lstm", "gru"):
     base["recurrent_quantizer"] = "none" if c["rq"] is None else "set"
